@@ -306,10 +306,12 @@ def hasParam (vs : List PVal) (i : Nat) : Bool :=
   | some _ => true
   | Option.none => false
 
-/-- ~mincol,colinc,minpad,padcharA : `minpad` copies, then `colinc` at a time up to `mincol` -/
+/-- ~mincol,colinc,minpad,padcharA : `minpad` copies, then `colinc` at a time up to `mincol`;
+    colinc must be at least 1 (an increment of 0 is outside the directive's domain whether or not
+    padding is needed — the code's test `colinc < 1`, tied in Theorems/GenC15Code) -/
 def padAS (mincol colinc minpad pad : Nat) (atm : Bool) (s : Txt) : Except Err Txt :=
   let base := s.length + minpad
-  if base < mincol ∧ colinc = 0 then .error .range else
+  if colinc = 0 then .error .range else
   let k := if base < mincol then (mincol - base + colinc - 1) / colinc else 0
   let p := List.replicate (minpad + k * colinc) pad
   .ok (if atm then p ++ s else s ++ p)
